@@ -170,6 +170,30 @@ func runC16(c *c16Case) (error, int, map[string]int) {
 	return nil, int(maxInflight.Load()), merged
 }
 
+// readBattery lists read-only queries derived from the stored keys.
+func readBattery(s *slot) []Op {
+	es := s.model.Sorted()
+	ops := []Op{{Op: "min"}, {Op: "max"}, {Op: "topk", N: 2}, {Op: "bottomk", N: 2}, {Op: "size"}, {Op: "all"}, {Op: "backward"}}
+	if len(es) == 0 {
+		return ops
+	}
+	lo, hi, mid := es[0].Raw, es[len(es)-1].Raw, es[len(es)/2].Raw
+	ops = append(ops, Op{Op: "search", K: clone(mid)})
+	for _, p := range derivedProbes(s.kind, []*Entry{es[len(es)/2]}, 3) {
+		ops = append(ops, Op{Op: "search", K: p})
+	}
+	if s.kind.HasRange() {
+		ops = append(ops, Op{Op: "range", K: clone(lo), K2: clone(hi)}, Op{Op: "range", K: clone(hi), K2: clone(lo)}, Op{Op: "range", K: clone(mid), K2: clone(mid)})
+		if s.kind.Family() == "alpha" {
+			ops = append(ops, Op{Op: "range", K: clone(lo), K2: []byte{}}, Op{Op: "range", K: clone(mid), K2: []byte{}})
+		}
+	}
+	if s.kind.HasPrefix() {
+		ops = append(ops, Op{Op: "prefix", K: clone(mid[:len(mid)/2])}, Op{Op: "prefix", K: append(clone(mid), 'q', 'q')}, Op{Op: "prefix", K: []byte{}})
+	}
+	return ops
+}
+
 func TestC16(t *testing.T) {
 	stats.Property = "C16"
 	replayRegressions(t, "C16")
@@ -199,6 +223,13 @@ func TestC16(t *testing.T) {
 					h.step(rt)
 				}
 				for _, op := range h.trace.Ops[before:] {
+					op.G = g
+					c.ops = append(c.ops, op)
+				}
+				// every reader also runs the same battery of special reads, so that each query path
+				// (open-ended / reversed / whole range, prefixes, extremes, TopK/BottomK, scans) is
+				// executed by all goroutines at the same time in every case
+				for _, op := range readBattery(h.eng.slots[0]) {
 					op.G = g
 					c.ops = append(c.ops, op)
 				}
